@@ -103,3 +103,34 @@ func TestC03Cdna3CmpGeF32E64(t *testing.T) {
 		t.Errorf("CDNA3 %s: result mask %#b for lanes (1>=2, 2>=1), want 0b10", inst.InstName, got)
 	}
 }
+
+// 32-bit instructions with the inline constant -1 (operand code 193), which ReadOperand returns
+// sign-extended to 64 bits.
+func TestC03InlineMinusOneIn32BitInstructions(t *testing.T) {
+	// s_lshr_b32 s2, -1, 4   : SOP2 op 30 (s_lshr_b32): 10 | op<<23 | sdst<<16 | ssrc1<<8 | ssrc0
+	inst := decode(t, 0x80000000|30<<23|2<<16|132<<8|193)
+	wf := emu.NewWavefront(nil)
+	st := &wfState{wf, inst}
+	emu.NewALU(nil).Run(st)
+	if got := binary.LittleEndian.Uint32(wf.SRegFile[8:]); got != 0x0fffffff {
+		t.Errorf("%s: s2 = %#x, 0xffffffff >> 4 is 0x0fffffff", inst.InstName, got)
+	}
+
+	// v_addc_u32 v2, vcc, -1, v1, vcc  (VOP2 op 28): 64-bit decrement of the high word, carry-in 0, v1 = 0
+	inst = decode(t, 28<<25|2<<17|1<<9|193)
+	wf = emu.NewWavefront(nil)
+	setV(wf, 0, 1, 0)
+	wf.SetEXEC(1)
+	wf.SetVCC(0)
+	st = &wfState{wf, inst}
+	emu.NewALU(nil).Run(st)
+	if st.VCC()&1 != 0 {
+		t.Errorf("%s: 0xffffffff + 0 + 0 reported a carry-out", inst.InstName)
+	}
+	setV(wf, 0, 1, 5)
+	wf.SetVCC(0)
+	emu.NewALU(nil).Run(st)
+	if st.VCC()&1 != 1 {
+		t.Errorf("%s: 0xffffffff + 5 reported no carry-out", inst.InstName)
+	}
+}
